@@ -4,7 +4,6 @@ package c01
 import (
 	"bytes"
 	"fmt"
-	"os"
 	"testing"
 
 	"pgregory.net/rapid"
@@ -76,7 +75,7 @@ var opKinds = []string{
 	"timeout", "timeout",
 	"fair", "fair", "fair",
 	"byzvote", "byzvote", "byzprop", "split",
-	"dup", "drop", "crashrestart", "crash", "restart", "sync",
+	"dup", "drop", "crashrestart", "crash", "restart", "sync", "amnesia",
 }
 
 func GenOp(t *rapid.T) sim.Op {
@@ -97,11 +96,8 @@ func genCase(t *rapid.T) Case {
 }
 
 func runCase(c Case, x *h.Ctx) {
-	dir, err := os.MkdirTemp("", "c01-")
-	if err != nil {
-		panic(err)
-	}
-	defer os.RemoveAll(dir)
+	dir, doneDir := sim.TempDir("c01-")
+	defer doneDir()
 	byz := make([]bool, len(c.Powers))
 	for _, i := range c.Byz {
 		byz[i] = true
